@@ -115,6 +115,8 @@ type InjectCase struct {
 	// DelayMs: the master pauses this long in front of the malformed packet (a replica that does something
 	// periodically gets the chance to do it on exactly that packet)
 	DelayMs int `json:",omitempty"`
+	// EmptyName: the start position names no file (= the master's first file)
+	EmptyName bool `json:",omitempty"`
 }
 
 func checkInject(c *InjectCase) error {
@@ -128,7 +130,11 @@ func checkInject(c *InjectCase) error {
 	if c.OwnID {
 		sid = c.H.Cfg.ServerID
 	}
-	ss, err := newSession(c.H.Tables, sid, start)
+	callerStart := start
+	if c.EmptyName {
+		callerStart.File = ""
+	}
+	ss, err := newSession(c.H.Tables, sid, callerStart)
 	if err != nil {
 		return fmt.Errorf("harness: %v", err)
 	}
@@ -185,7 +191,7 @@ func checkInject(c *InjectCase) error {
 	if len(st.got) > before {
 		return fmt.Errorf("%d transactions were delivered although only %d commit events precede the malformed packet at index %d", len(st.got), before, c.At)
 	}
-	if err := compareTxs(st.got, exp[:len(st.got)], true); err != nil {
+	if err := compareTxs(st.got, exp[:len(st.got)], !c.EmptyName); err != nil {
 		return fmt.Errorf("deliveries before the malformed packet: %v", err)
 	}
 	if len(st.got) != before {
@@ -199,6 +205,12 @@ func checkInject(c *InjectCase) error {
 		return fmt.Errorf("second attempt never requested a dump [stream err %v]", st2.streamErr)
 	}
 	allowed := allowedResume(l, exp, len(st.got), start, 0)
+	if c.EmptyName {
+		allowed = withEmptyName(allowed, c.H.FirstFile)
+		if len(st.got) == 0 {
+			allowed[callerStart] = true
+		}
+	}
 	if !allowed[hist.Pos{File: req.File, Off: int64(req.Pos)}] {
 		return fmt.Errorf("after the malformed packet the next attempt asks for %q:%d; allowed resume points are %v", req.File, req.Pos, keys(allowed))
 	}
@@ -345,8 +357,9 @@ func TestC17(t *testing.T) {
 			sub := rapid.IntRange(0, 7).Draw(rt, "bad_class")
 			quiet := rapid.IntRange(0, 3).Draw(rt, "quiet_after") == 0
 			ownID := rapid.IntRange(0, 3).Draw(rt, "replica_id_is_event_id") == 0
+			emptyName := rapid.IntRange(0, 5).Draw(rt, "empty_start_name") == 0
 			for at := 0; at <= len(payloads); at++ {
-				c := &InjectCase{H: h, At: at, Sub: sub + at, Pacing: pacing, Quiet: quiet, OwnID: ownID}
+				c := &InjectCase{H: h, At: at, Sub: sub + at, Pacing: pacing, Quiet: quiet, OwnID: ownID, EmptyName: emptyName}
 				journal("C17", "c17inject", c)
 				rec.Case(true, c, "inject", fmt.Sprintf("inject/class%d", c.Sub%8), fmt.Sprintf("inject/pacing=%d", pacing))
 				if at == len(payloads)/2 {
